@@ -12,6 +12,7 @@
   a cgo build against the system libzstd (thorough tier) — labelled support, not proof.
 -/
 import Desync.Proofs.LocalStoreProofs
+import Desync.Model.CrashFS
 
 namespace Desync.C20
 open Desync
@@ -53,5 +54,13 @@ theorem gen_literals :
     Gen.CompressedChunkExtBytes = [46, 99, 97, 99, 110, 107] ∧ Gen.UncompressedChunkExtBytes = [] ∧
     Gen.site_str_CompressedChunkExt_found = true ∧ Gen.site_str_UncompressedChunkExt_found = true := by
   decide
+
+/-- writers of either format stage a chunk in a *private, uniquely named* temporary file
+    (`tempfile.NewMode(dir, ".tmp-cacnk", …)`) and move it into place with `rename`: the order of
+    operations regenerated from `LocalStore.StoreChunk` is the one of the crash machine
+    (`Model/CrashFS.lean`, C08), whose writers never share a staging file — so a compressed and an
+    uncompressed writer of the same ID, whose final names differ (`formats_disjoint`), cannot
+    overwrite each other's bytes -/
+theorem writers_use_private_temp_files : Gen.localStoreChunkShape = CrashFS.modelledShape := by decide
 
 end Desync.C20
